@@ -171,7 +171,7 @@ func (m *multiQueryRetriever) Retrieve(ctx context.Context, query string, opts .
 	// retrieve
 	tasks := make([]*utils.RetrieveTask, len(queries))
 	for i := range queries {
-		tasks[i] = &utils.RetrieveTask{Retriever: m.origRetriever, Query: queries[i]}
+		tasks[i] = &utils.RetrieveTask{Retriever: m.origRetriever, Query: queries[i], RetrieveOptions: opts}
 	}
 	utils.ConcurrentRetrieveWithCallback(ctx, tasks)
 	result := make([][]*schema.Document, len(queries))
